@@ -15,6 +15,63 @@ from .spaces_common import report
 WHY = "Under reuse the donor outline is drawn through a transform; paints attached to it must be counter-transformed consistently"
 
 
+def _canon_get(t: str) -> str:
+    """`d.get(k)` and `d[k]` denote the same entry when the key is known to be present."""
+    class G(ast.NodeTransformer):
+        def visit_Call(self, n):
+            self.generic_visit(n)
+            if isinstance(n.func, ast.Attribute) and n.func.attr == "get" and len(n.args) == 1 and not n.keywords and norm(n.func.value).startswith("self."):
+                return ast.Subscript(value=n.func.value, slice=n.args[0], ctx=ast.Load())
+            return n
+    try:
+        return norm(G().visit(ast.parse(t, mode="eval").body))
+    except SyntaxError:
+        return t
+
+
+def reuse_cache_roles(model: Model) -> dict:
+    """Role-based reading of GlyphReuseCache (names of locals, of the dict attribute and `.get` vs `in` + index do not matter)."""
+    from ..dataflow import resolved_text
+    tfi = model.func("glyph_reuse", "GlyphReuseCache.try_reuse")
+    afi = model.func("glyph_reuse", "GlyphReuseCache.add_glyph")
+    tcfg, acfg = cfg_of(tfi), cfg_of(afi)
+    out = {"tfi": tfi, "afi": afi}
+    stores = [st for st in walk_body(afi) if isinstance(st, ast.Assign) and isinstance(st.targets[0], ast.Subscript) and norm(st.targets[0].value).startswith("self.")]
+    if len(stores) != 1:
+        raise AnalysisError("GlyphReuseCache.add_glyph: expected one store into the donor table")
+    st = stores[0]
+    out["table"] = norm(st.targets[0].value)
+    out["store_value"] = resolved_text(acfg, acfg.node_for(st), st.value, afi)
+    kd = acfg.reaching(acfg.node_for(st), st.targets[0].slice.id) if isinstance(st.targets[0].slice, ast.Name) else []
+    keys = []
+    for d in kd:
+        if d.value is not None:
+            v = d.value
+            if isinstance(v, ast.IfExp):
+                keys += [(norm(v.test), resolved_text(acfg, d.node, v.body, afi)), ("not " + norm(v.test), resolved_text(acfg, d.node, v.orelse, afi))]
+            else:
+                facts = [(norm(e), pol) for e, pol in guard_facts(acfg, d.node)]
+                keys.append((" and ".join(f if pol else f"not {f}" for f, pol in facts), resolved_text(acfg, d.node, v, afi)))
+    if not kd:
+        keys.append(("", resolved_text(acfg, acfg.node_for(st), st.targets[0].slice, afi)))
+    out["store_keys"] = keys
+    ab = find_calls(tfi, "affine_between")
+    out["affine_between"] = [_canon_get(resolved_text(tcfg, tcfg.node_for(ab[0]), a, tfi)) for a in ab[0].args] if len(ab) == 1 else None
+    rets = [x for x in walk_body(tfi) if isinstance(x, ast.Return) and isinstance(x.value, ast.Call) and callee_tail(x.value) == "ReuseResult"]
+    out["result_name"] = _canon_get(resolved_text(tcfg, tcfg.node_for(rets[0]), rets[0].value.args[0], tfi)) if len(rets) == 1 and rets[0].value.args else None
+    nones = [x for x in walk_body(tfi) if isinstance(x, ast.Return) and norm(x.value) == "None"]
+    reasons = []
+    for x in nones:
+        f = guard_facts(tcfg, tcfg.node_for(x), skip_abort_guards=True)
+        if not f:
+            reasons.append(("<unconditional>", True))
+            continue
+        e, pol = f[-1]
+        reasons.append((_canon_get(resolved_text(tcfg, tcfg.node_for(x), e, tfi)), pol))
+    out["none_reasons"] = reasons
+    return out
+
+
 @RULES.rule("C06", "R06a", "coordinate-space consistency of both reuse branches (COLR wrapper and OT-SVG <use>)", floor=60)
 def r06a(model: Model, rr: RuleResult):
     report(model, rr, [("write_font", "_migrate_paths_to_ufo_glyphs._update_paint_glyph"), ("svg", "_add_glyph"), ("svg", "_apply_paint"),
@@ -42,10 +99,13 @@ def r06b_impl(model: Model, rr: RuleResult):
     else:
         rr.bad(fi, rets[0], "try_reuse no longer bails out when affine_between returns None", construct="try_reuse: affine is None check")
     ab = find_calls(fi, "affine_between")
-    if len(ab) == 1 and len(ab[0].args) == 3 and norm(ab[0].args[2]) == "self._reuse_tolerance" and "glyph_path" in norm(ab[0].args[0]) and norm(ab[0].args[1]).endswith("d=path)"):
+    roles = reuse_cache_roles(model)
+    KEY = "normalize(SVGPath(d=path), self._normalize_tolerance).d"
+    ENTRY = f"{roles['table']}[{KEY}]"
+    if roles["affine_between"] == [f"SVGPath(d={ENTRY}[1])", "SVGPath(d=path)", "self._reuse_tolerance"]:
         rr.ok("affine_between(donor path, new path, reuse tolerance): transform maps donor -> new")
     else:
-        rr.bad(fi, fi.node, "affine_between is not called as (donor, new path, tolerance): the reuse transform would point the wrong way or ignore the tolerance",
+        rr.bad_shape(fi, fi.node, "affine_between is not called as (donor, new path, tolerance): the reuse transform would point the wrong way or ignore the tolerance",
                construct=f"try_reuse: {short(ab[0]) if ab else 'affine_between missing'}")
     # write_font: reuse return dominated by `not overflows`; overflows covers the combined gradient transform
     wf = model.func("write_font", "_migrate_paths_to_ufo_glyphs._update_paint_glyph")
@@ -190,24 +250,27 @@ def r06d_impl(model: Model, rr: RuleResult):
     # GlyphReuseCache: both normalisations use one tolerance and the same construction
     tfi = model.func("glyph_reuse", "GlyphReuseCache.try_reuse")
     afi = model.func("glyph_reuse", "GlyphReuseCache.add_glyph")
-    n1 = [c for c in calls_in(tfi) if norm(c.func) == "normalize"]
-    n2 = [c for c in calls_in(afi) if norm(c.func) == "normalize"]
-    if len(n1) == 1 and len(n2) == 1 and norm(n1[0].args[1]) == norm(n2[0].args[1]) and norm(n1[0].args[0]).split("=")[0] == norm(n2[0].args[0]).split("=")[0]:
-        rr.ok(f"try_reuse and add_glyph normalise with the same tolerance ({norm(n1[0].args[1])})")
+    roles = reuse_cache_roles(model)
+    pp = afi.params[2] if len(afi.params) > 2 else "glyph_path"
+    KEY = "normalize(SVGPath(d=path), self._normalize_tolerance).d"
+    lookup_ok = any(KEY in (t or "") for t in (roles["affine_between"] or [])) or any(KEY in r for r, _ in roles["none_reasons"])
+    store_norm = [k for c, k in roles["store_keys"] if "normalize(" in k]
+    if lookup_ok and store_norm and all(k == KEY.replace("d=path", f"d={pp}") for k in store_norm):
+        rr.ok("try_reuse and add_glyph normalise with the same tolerance (self._normalize_tolerance) and construction")
     else:
-        rr.bad(tfi, tfi.node, "look-up and insertion normalise with different tolerances/constructions: congruent shapes hash differently", construct="normalize(...) arguments differ")
+        rr.bad_shape(tfi, tfi.node, "look-up and insertion normalise with different tolerances/constructions: congruent shapes hash differently", construct="normalize(...) arguments differ")
     ifi = model.func("glyph_reuse", "GlyphReuseCache.__init__")
     nt = [st for st in walk_body(ifi) if isinstance(st, ast.Assign) and norm(st.targets[0]) == "self._normalize_tolerance"]
     if nt and "self._reuse_tolerance" in norm(nt[0].value):
         rr.ok("normalisation tolerance derives from the reuse tolerance")
     else:
         rr.bad(ifi, ifi.node, "normalisation tolerance no longer derives from the configured reuse tolerance", construct="GlyphReuseCache.__init__")
-    look = [n for n in walk_body(tfi) if isinstance(n, ast.Subscript) and "_reusable_paths" in norm(n.value)]
-    store = [st for st in walk_body(afi) if isinstance(st, ast.Assign) and "_reusable_paths[" in norm(st.targets[0])]
-    if look and store and norm(look[0].slice) == "norm_path" and "_reusable_paths[norm_path]" in norm(store[0].targets[0]) and norm(store[0].value) == "(glyph_name, glyph_path)":
+    ENTRY = f"{roles['table']}[{KEY}]"
+    pn = afi.params[1] if len(afi.params) > 1 else "glyph_name"
+    if roles["store_value"] == f"({pn}, {pp})" and roles["result_name"] == f"{ENTRY}[0]" and roles["affine_between"] and roles["affine_between"][0] == f"SVGPath(d={ENTRY}[1])":
         rr.ok("cache maps normalised path -> (donor glyph name, donor path); first field is the name, second the un-normalised path")
     else:
-        rr.bad(afi, afi.node, "reuse cache entry is not (glyph name, original path) keyed by the normalised path", construct="_reusable_paths entry")
+        rr.bad_shape(afi, afi.node, "reuse cache entry is not (glyph name, original path) keyed by the normalised path", construct="_reusable_paths entry")
 
 
 @RULES.rule("C06", "R06d", "look-up key = insertion key in both back ends; one normalisation tolerance", floor=8)
@@ -254,11 +317,32 @@ def r19b(model: Model, rr: RuleResult):
     for st in nones:
         f = [(norm(e), pol) for e, pol in guard_facts(tcfg, tcfg.node_for(st), skip_abort_guards=True)]
         reasons.append(f[-1] if f else ("<unconditional>", True))
-    want = [("self._reuse_tolerance < 0", True), ("norm_path not in self._reusable_paths", True), ("affine is None", True), ("fixed_safe(*affine)", False)]
+    roles = reuse_cache_roles(model)
+    KEY = "normalize(SVGPath(d=path), self._normalize_tolerance).d"
+    TBL = roles["table"]
+    AFF = f"affine_between(SVGPath(d={TBL}[{KEY}][1]), SVGPath(d=path), self._reuse_tolerance)"
+
+    def _canon_reason(r):
+        t, pol = r
+        if t in (f"{KEY} not in {TBL}", f"{TBL}[{KEY}] is None") and pol:
+            return ("<no donor for the normal form>", True)
+        if t == f"{KEY} in {TBL}" and not pol:
+            return ("<no donor for the normal form>", True)
+        if t == f"{AFF} is None" and pol:
+            return ("affine is None", True)
+        if t == f"fixed_safe(*{AFF})":
+            return ("fixed_safe(*affine)", pol)
+        return r
+    reasons = [_canon_reason(r) for r in roles["none_reasons"]]
+    want = [("self._reuse_tolerance < 0", True), ("<no donor for the normal form>", True), ("affine is None", True), ("fixed_safe(*affine)", False)]
     if reasons == want:
         rr.ok("try_reuse gives up only when: reuse disabled / no donor with that normal form / no affine within tolerance / affine overflows Fixed")
+    elif all(w in reasons for w in want) and len(reasons) > len(want):
+        extra_r = [r for r in reasons if r not in want]
+        rr.bad(tfi, tfi.node, f"try_reuse also gives up when {extra_r} (besides: disabled / no donor / no affine / overflow): congruent copies that meet this condition are stored "
+               f"again", construct=f"try_reuse None-returns: extra {extra_r}")
     else:
-        rr.bad(tfi, tfi.node, f"try_reuse returns None for reasons {reasons}; expected exactly {want}", construct=f"try_reuse None-returns: {reasons}")
+        rr.bad_shape(tfi, tfi.node, f"try_reuse returns None for reasons {reasons}; expected exactly {want}", construct=f"try_reuse None-returns: {reasons}")
     # OT-SVG: a truthy reuse result always yields a <use>
     sf = model.func("svg", "_add_glyph")
     scfg = cfg_of(sf)
@@ -359,4 +443,4 @@ def r06e(model: Model, rr: RuleResult):
     if dfn and all(len(c.args) >= 3 and norm(c.args[2]) == "transform" for c in dfn):
         rr.ok("the gradient is defined with the same transform that is in the key")
     else:
-        rr.bad(model.func("svg", "_apply_gradient_paint"), dfn[0] if dfn else None, "the gradient is defined with a transform other than the one in the reuse key", construct="_apply_gradient_paint: _define_gradient transform")
+        rr.bad_shape(model.func("svg", "_apply_gradient_paint"), dfn[0] if dfn else None, "the gradient is defined with a transform other than the one in the reuse key", construct="_apply_gradient_paint: _define_gradient transform")
